@@ -47,6 +47,9 @@ type opSpec struct {
 type openSpec struct {
 	Req       []string `json:"requested"`         // ordered request list
 	ReadFirst bool     `json:"read_before_write"` // the opener's first use is a Read (the handler greets first)
+	// the opener's first use is CloseWrite (it has nothing to send; the handler speaks): the lazy
+	// handshake must be flushed by it
+	CWFirst bool `json:"close_write_before_anything,omitempty"`
 }
 
 type roundSpec struct {
@@ -228,7 +231,7 @@ func genCase(rng *rand.Rand, idx int, thorough, allowBlank bool) *caseSpec {
 		if thorough && rng.IntN(4) == 0 {
 			// all orders of one request set
 			for _, p := range permutations(pickDistinct(rng, 2+rng.IntN(3), must)) {
-				rd.Opens = append(rd.Opens, openSpec{Req: p, ReadFirst: rng.IntN(3) == 0})
+				rd.Opens = append(rd.Opens, openSpec{Req: p, ReadFirst: rng.IntN(3) == 0, CWFirst: rng.IntN(6) == 0})
 			}
 		} else {
 			n := []int{1, 1, 1, 2, 2, 3, 4, 6, 8, 12, 16}[rng.IntN(11)]
@@ -239,7 +242,7 @@ func genCase(rng *rand.Rand, idx int, thorough, allowBlank bool) *caseSpec {
 				} else if len(sup) > 0 && rng.IntN(10) < 3 {
 					m = sup[rng.IntN(len(sup))] // keep the share of opens with a protocol in common up
 				}
-				rd.Opens = append(rd.Opens, openSpec{Req: pickDistinct(rng, 1+rng.IntN(4), m), ReadFirst: rng.IntN(3) == 0})
+				rd.Opens = append(rd.Opens, openSpec{Req: pickDistinct(rng, 1+rng.IntN(4), m), ReadFirst: rng.IntN(3) == 0, CWFirst: rng.IntN(6) == 0})
 			}
 		}
 		c.Rounds = append(c.Rounds, rd)
@@ -326,7 +329,7 @@ func playRounds(c *caseSpec, opener, lis *node, e env, res *caseResult) {
 				defer wg.Done()
 				ctx, cancel := context.WithTimeout(context.Background(), time.Minute)
 				defer cancel()
-				rr.Opens[k] = doOpen(ctx, opener.h, lis.key.ID, k, op.Req, op.ReadFirst, mkNonce(c.Idx, ri, k))
+				rr.Opens[k] = doOpen(ctx, opener.h, lis.key.ID, k, op.Req, op.ReadFirst, op.CWFirst, mkNonce(c.Idx, ri, k))
 			}()
 		}
 		wg.Wait()
@@ -353,6 +356,7 @@ func playRounds(c *caseSpec, opener, lis *node, e env, res *caseResult) {
 			}
 		}
 		rr.OpenView = [2]scopeView{viewScopes(opener.rm, auditIDs), viewScopes(lis.rm, auditIDs)}
+		log.releaseHold()
 		for _, o := range rr.Opens {
 			if o.st != nil {
 				o.st.Close()
@@ -538,6 +542,9 @@ func (s *state) judgeRound(c *caseSpec, ri int, rr *roundResult, exact bool) boo
 		}
 		// (2) "the remote runs exactly the handler registered for (or matching) that protocol on a stream
 		// reporting the same protocol ID, and the bytes then exchanged flow between precisely those two endpoints"
+		if o.CWFirst {
+			r.Count("ok_"+path+"_first_use_is_a_closewrite", 1)
+		}
 		if o.ReplyNonce != o.Nonce {
 			j.viol("nonce-crosstalk", fmt.Sprintf("open %d wrote nonce %s and read back %s", o.K, o.Nonce, o.ReplyNonce))
 		}
